@@ -381,8 +381,12 @@ def build(spec, shape, ctxk=None):
     t = spec["t"]
     if t == "composite":
         parts, cur = [], list(shape)
-        for ps in spec["parts"]:
-            b = build(ps, cur, ctxk)
+        share = spec.get("share")      # [i, j]: position j holds the very module object of position i (a transform applied twice)
+        for k_, ps in enumerate(spec["parts"]):
+            if share and k_ == share[1] and list(parts[share[0]].in_shape) == list(cur) and list(parts[share[0]].out_shape) == list(cur):
+                b = parts[share[0]]
+            else:
+                b = build(ps, cur, ctxk)
             parts.append(b)
             cur = b.out_shape
         m = T.CompositeTransform([p.module for p in parts])
